@@ -72,6 +72,8 @@ def run_all(ctx):
     # -- normalize_slice, then the plan for the normalized slice over every chunking
     for n in range(nmax + 1):
         comps = list(compositions(n))
+        # ... and the same layouts with one zero-width chunk inserted anywhere (boolean masks leave such chunks behind)
+        comps += [c[:k] + (0,) + c[k:] for c in comps if n and len(c) <= 3 for k in range(len(c) + 1)]
         for s in slices:
             i += 1
             if not mine(ctx, i):
